@@ -9,10 +9,8 @@ mod world;
 use engine::{BatchOpts, Prop};
 use serde_json::json;
 
-static C01: props::c01::C01 = props::c01::C01;
-
 fn all_props() -> Vec<&'static dyn Prop> {
-    vec![&C01]
+    props::all()
 }
 
 fn find(id: &str) -> &'static dyn Prop {
